@@ -241,14 +241,27 @@ class Ctx:
                     r.objs.append(json.loads(l[i + 3:]))
                 except ValueError:
                     pass
+        # Sanitizer reports.  With both ASAN_OPTIONS and UBSAN_OPTIONS carrying a log_path the combined runtime uses
+        # ONE of them for everything (and UBSan text may also land on stderr): scan every log file and stderr for
+        # both kinds of report.
+        texts = []
         for f in sorted(glob.glob(os.path.join(rd, 'asan.*')) + glob.glob(os.path.join(rd, 'ubsan.*'))):
-            txt = open(f, errors='replace').read()
-            # split UBSan logs into report blocks
-            if os.path.basename(f).startswith('ubsan'):
-                blocks = re.split(r'(?m)^(?=\S+:\d+:\d+: runtime error)', txt)
-                r.san += [b for b in blocks if 'runtime error' in b]
-            elif txt.strip():
-                r.san.append(txt)
+            texts.append(open(f, errors='replace').read())
+        texts.append(r.stderr)
+        seen_blocks = set()
+        for txt in texts:
+            if not txt.strip(): continue
+            for m in re.finditer(r'(?ms)^(?:=+\n)?==\d+==ERROR: AddressSanitizer.*?(?=^==\d+==ABORTING|\Z)', txt):
+                b = m.group(0)
+                if b not in seen_blocks: seen_blocks.add(b); r.san.append(b)
+            for b in re.split(r'(?m)^(?=\S+:\d+:\d+: runtime error)', txt):
+                if re.match(r'\S+:\d+:\d+: runtime error', b):
+                    # keep the report line and its stack only
+                    lines = b.splitlines()
+                    keep = [lines[0]] + [l for l in lines[1:40] if re.match(r'\s+#\d+ ', l)]
+                    kb = '\n'.join(keep)
+                    first = lines[0]
+                    if first not in seen_blocks: seen_blocks.add(first); r.san.append(kb)
         if r.backtraces:
             open(os.path.join(rd, 'gdb.txt'), 'w').write(r.backtraces)
         r.dir = rd
